@@ -147,8 +147,11 @@ Proof.
 Qed.
 
 Fixpoint plan_total (plan : list (name * nat)) : nat := match plan with [] => 0 | (_, k) :: t => k + plan_total t end.
-Definition rb_len (rb : list (name * list nat)) (n : name) : nat :=
-  match find (fun g => Nat.eqb (fst g) n) rb with Some g => length (snd g) | None => 0%nat end.
+Fixpoint rb_len (rb : list (name * list nat)) (n : name) : nat :=
+  match rb with
+  | [] => 0%nat
+  | g :: t => ((if Nat.eqb (fst g) n then length (snd g) else 0) + rb_len t n)%nat
+  end.
 Definition created_on (ms : list msg) (n : name) : nat := length (filter (fun p => Nat.eqb (wi_node (fst p)) n) (created_of ms)).
 
 (* doDeployWorkloads over the whole plan: one message per planned instance; exactly the instances
@@ -161,11 +164,12 @@ Lemma deploy_all_ms : forall opi pod r plan w k,
     (forall p, In p (created_of ms) -> wi_op (fst p) = opi /\ In (wi_node (fst p)) (map fst plan) /\ snd p = r) /\
     (forall n cnt, In (n, cnt) plan -> (rb_len rb n + created_on ms n = cnt)%nat) /\
     (forall n, ~ In n (map fst plan) -> rb_len rb n = 0%nat) /\
+    (forall g, In g rb -> In (fst g) (map fst plan)) /\
     core3 w' w (wls w ++ map (wl_of pod) (created_of ms)) (conts w ++ map cont_of (created_of ms)).
 Proof.
   intros opi pod r plan. induction plan as [|[n cnt] rest IH]; intros w k Hnd Hf Hnodes.
   - unfold crunk. simpl. do 4 eexists. split; [reflexivity|]. split; [reflexivity|]. split; [congruence|].
-    split; [intros p []|]. split; [intros ? ? []|]. split; [reflexivity|]. simpl. rewrite !app_nil_r. apply core3_refl.
+    split; [intros p []|]. split; [intros ? ? []|]. split; [reflexivity|]. split; [intros g []|]. simpl. rewrite !app_nil_r. apply core3_refl.
   - cbn [map fst] in *. inversion Hnd as [|? ? Hni Hnd']; subst.
     cbn [deploy_all]. rewrite crunk_bind.
     destruct (deploy_on_node_ms opi pod n cnt r w k) as [w1 [k1 [failed [ms1 [H1 [Hl1 [Hcnt1 [Hok1 [Hk1 Hc1]]]]]]]]].
@@ -186,7 +190,7 @@ Proof.
         assert (Nat.eqb n n' = false) as -> by (apply Nat.eqb_neq; auto). rewrite andb_false_r. reflexivity. }
     assert (Hnodes1 : forall n', In n' (map fst rest) -> find_node w1 n' <> None).
     { intros n' Hn'. unfold find_node. destruct Hc1 as [_ [Hnn _]]. rewrite Hnn. apply Hnodes. right; exact Hn'. }
-    destruct (IH w1 k1 Hnd' Hf1 Hnodes1) as [w2 [k2 [rb [ms2 [H2 [Hl2 [Hk2 [Hok2 [Hcnt2 [Hrb0 Hc2]]]]]]]]]].
+    destruct (IH w1 k1 Hnd' Hf1 Hnodes1) as [w2 [k2 [rb [ms2 [H2 [Hl2 [Hk2 [Hok2 [Hcnt2 [Hrb0 [Hrbin Hc2]]]]]]]]]]].
     rewrite H2. unfold crunk. cbn [runk fst snd].
     (* no created instance of the rest is on n, none of ms1 is on a later node *)
     assert (Hon1 : forall n', n' <> n -> created_on ms1 n' = 0%nat).
@@ -208,9 +212,9 @@ Proof.
       - destruct (Hok1 p Hp) as [? [? ?]]. split; auto. split; auto. left; auto.
       - destruct (Hok2 p Hp) as [? [? ?]]. split; auto. split; auto. right; auto. }
     assert (Hrbn : rb_len (match failed with [] => rb | _ => (n, failed) :: rb end) n = length failed).
-    { destruct failed as [|f0 ft]; [simpl; apply Hrb0; exact Hni|]. unfold rb_len. simpl. rewrite Nat.eqb_refl. reflexivity. }
+    { destruct failed as [|f0 ft]; [simpl; apply Hrb0; exact Hni|]. cbn [rb_len fst snd]. rewrite Nat.eqb_refl. rewrite (Hrb0 n Hni). lia. }
     assert (Hrbo : forall n', n' <> n -> rb_len (match failed with [] => rb | _ => (n, failed) :: rb end) n' = rb_len rb n').
-    { intros n' Hne. destruct failed as [|f0 ft]; [reflexivity|]. unfold rb_len. simpl.
+    { intros n' Hne. destruct failed as [|f0 ft]; [reflexivity|]. cbn [rb_len fst snd].
       assert (Nat.eqb n n' = false) as -> by (apply Nat.eqb_neq; auto). reflexivity. }
     split.
     { intros n' cnt' [Heq|Hin].
@@ -223,6 +227,9 @@ Proof.
     split.
     { intros n' Hn'. assert (Hne : n' <> n) by (intro; subst; apply Hn'; left; reflexivity).
       rewrite Hrbo by exact Hne. apply Hrb0. intro. apply Hn'. right; auto. }
+    split.
+    { intros g Hg. destruct failed as [|f0 ft]; [right; apply Hrbin; exact Hg|].
+      destruct Hg as [<-|Hg]; [left; reflexivity|right; apply Hrbin; exact Hg]. }
     rewrite created_of_app, !map_app, !app_assoc.
     destruct Hc1 as [Hp1 [Hn1 [Hpl1 [Hst1 [Hsc1 [Hw1 Hcc1]]]]]].
     destruct Hc2 as [Hp2 [Hn2 [Hpl2 [Hst2 [Hsc2 [Hw2 Hcc2]]]]]].
